@@ -12,6 +12,7 @@ package tableschk
 import (
 	"database/sql"
 	"fmt"
+	"regexp"
 	"sort"
 	"strconv"
 	"strings"
@@ -138,6 +139,28 @@ func (m *TableModel) HasCol(c string) bool {
 	return false
 }
 
+// HasColFold: a name that differs from a column only by letter case (SQLite resolves column names without regard to
+// case; ego's own checks compare exactly): the model gives no verdict on such a name.
+func (m *TableModel) HasColFold(c string) bool {
+	for _, x := range m.Cols {
+		if strings.EqualFold(x, c) {
+			return true
+		}
+	}
+
+	return false
+}
+
+// sqliteImplicit: the row id aliases every SQLite table answers to although they are not declared columns
+func sqliteImplicit(c string) bool {
+	switch strings.ToLower(c) {
+	case "rowid", "oid", "_rowid_":
+		return true
+	}
+
+	return false
+}
+
 // class of a column for comparison purposes
 func (m *TableModel) colClass(c string) string {
 	d := m.Decl[c]
@@ -254,6 +277,8 @@ func flex(src string) (toks []ftok, ok bool, ambiguous bool) {
 
 	return toks, true, ambiguous
 }
+
+var undocumentedButSane = regexp.MustCompile(`(^|[(,\s])[-+]?(0[xX][0-9a-fA-F]+|[0-9]+(\.[0-9]+)?[eE][-+]?[0-9]+|[0-9]{19,})([),\s]|$)|\.\s*nil\b`)
 
 type fparser struct {
 	toks []ftok
@@ -394,6 +419,15 @@ func ParseFilters(filters []string) *ParsedFilter {
 			return pf
 		}
 
+		if undocumentedButSane.MatchString(src) {
+			// hexadecimal and exponent numbers, and the .nil test for NULL: forms the implementation reads with their
+			// usual meaning although the documentation does not list them
+			pf.Meaning, pf.Why = MeaningAmbiguous, "numeric form or .nil test that the documentation does not list"
+			pf.HasPrefix = false
+
+			return pf
+		}
+
 		toks, ok, amb := flex(src)
 		if !ok {
 			// the grammatical prefix (complete expressions before the offending character), if any
@@ -518,6 +552,10 @@ func (m *TableModel) operand(n *fnode, r Row) (oval, *evalErr) {
 		return oval{class: "bool", i: 0}, nil
 	case fIdent:
 		if !m.HasCol(n.op) {
+			if m.HasColFold(n.op) || sqliteImplicit(n.op) {
+				return oval{}, &evalErr{MeaningAmbiguous, "name " + n.op + " matches a column only without regard to case, or is SQLite's implicit row id"}
+			}
+
 			return oval{}, &evalErr{MeaningNone, "unknown column " + n.op}
 		}
 
